@@ -327,3 +327,19 @@ package pegnet
 //@   trusted
 //@   pure
 //@   ensures !isRejectErr(result)
+//@
+//@ // ---- rate and grade tables ------------------------------------------------------------------------
+//@ spec func pegPhaseAt(h int) int = h >= config.PEGFreeFloatingPriceActivation ? 3 : (h >= config.PEGPricingActivation ? 2 : 1)
+//@
+//@ // pn_rate: UNIQUE(height, token) and INSERT only => rates of a height are written once and never change
+//@ func (*Pegnet).InsertRates
+//@   trusted
+//@   requires @phase_by_height phase == pegPhaseAt(height)
+//@   modifies Lrated, Lrate
+//@   ensures !isRejectErr(result)
+//@   ensures result == nil ==> !old(Lrated)[height] && Lrated == upd(old(Lrated), height, true) && (forall x int :: x != height ==> Lrate[x] == old(Lrate)[x])
+//@
+//@ func (*Pegnet).InsertGradeBlock
+//@   trusted
+//@   pure
+//@   ensures !isRejectErr(result)
